@@ -503,6 +503,49 @@ def run(ctx):
                f'plan(): with {label} present the complete outer query (targets, WHERE, GROUP BY, HAVING, ORDER BY, LIMIT, OFFSET, DISTINCT) must be '
                f're-applied to the join result in one QueryStep on a copy; steps added: {len(added)}', file=PJ, line=fn['plan'].lineno,
                witness='select distinct a.x from int1.a join int2.b on ...')
+    # ---- a sub-select member of a join: the outer conditions on it are applied to its RESULT, never written into it -------------------------------------
+    psub = fn.get('process_subselect')
+    ctx.need(psub is not None, 'PlanJoinTablesQuery.process_subselect not found')
+    for shape, inner_where, nconds in itertools.product(('renaming columns', 'star', 'plain columns', 'grouped'), (None, 'w'), (0, 1, 2)):
+        if shape == 'renaming columns':
+            targets = [Obj('Identifier', parts=['id'], alias=None), Obj('Identifier', parts=['y'], alias=Obj('Identifier', parts=['x'], alias=None))]
+        elif shape == 'star':
+            targets = [Obj('Star')]
+        else:
+            targets = [Obj('Identifier', parts=['id'], alias=None), Obj('Identifier', parts=['x'], alias=None)]
+        sub = select_ctor(None, targets=targets, from_table=Obj('Identifier', parts=['int2', 't2'], alias=None),
+                          where=binop('>', ident('z'), const(0)) if inner_where else None, group_by=[ident('id')] if shape == 'grouped' else None,
+                          alias=Obj('Identifier', parts=['s'], alias=None), parentheses=True)
+        sub0 = sub.clone()
+        conds = [binop('=', ident('x'), const(1)), binop('<', ident('id'), const(9))][:nconds]
+        item = Obj('TableInfo', integration=None, table=Obj('Identifier', parts=['s'], alias=Obj('Identifier', parts=['s'], alias=None)), aliases=[('s',)],
+                   conditions=list(conds), sub_select=sub, predictor_info=None, join_condition=None, join_type=None, index=1)
+        planned, added = [], []
+        stubs = base_stubs()
+        stubs['self.planner.plan_select'] = lambda it, q, **k: (planned.append(q.clone()), Obj('FetchDataframeStep', result='R-sub'))[1]
+        stubs['self.planner.get_predictor'] = lambda it, n: None
+        stubs['self.close_partition'] = lambda it: None
+        stubs['self.add_plan_step'] = lambda it, st: (added.append(st), st)[1]
+        stubs['SubSelectStep'] = lambda it, q, res, **k: Obj('SubSelectStep', query=q, dataframe=res, **k)
+        it = interp_for(stubs)
+        it.isa.update({'Star': set(), 'Data': set()})
+        self_ = Obj('PlanJoinTablesQuery', planner=Obj('QueryPlanner'), step_stack=[], query_context={})
+        label = f'sub-select {shape}, inner WHERE {"present" if inner_where else "absent"}, {nconds} outer condition(s)'
+        try:
+            it.call_function(psub, [self_, item], {}, _env())
+        except Raised as r:
+            ctx.ob('C08.subselect-kept', label, False, f'[{label}] process_subselect raises {r.exc_name}', file=PJ, line=psub.lineno)
+            continue
+        rows += 1
+        same = len(planned) == 1 and all(_same(getattr(planned[0], f), getattr(sub0, f)) for f in ('targets', 'where', 'group_by', 'having', 'order_by', 'limit', 'offset',
+                                                                                                 'distinct', 'from_table'))
+        outer = added[0].query.where if len(added) == 1 and isinstance(added[0], Obj) and isinstance(added[0].attrs.get('query'), Obj) else None
+        applied = len(added) == 1 and sorted(map(repr, _conjuncts(outer))) == sorted(map(repr, conds)) and added[0].attrs.get('dataframe') == 'R-sub'
+        ctx.ob('C08.subselect-kept', label, same and applied,
+               f'[{label}] the sub-select that is planned {"is" if same else "is NOT"} the user\'s sub-select and the outer conditions {"are" if applied else "are NOT"} '
+               f'applied to its result: a condition of the outer query names the OUTPUT columns of the sub-select (after renaming / aggregation); written into the '
+               f'sub-select\'s own WHERE it filters on base columns of the same name', file=PJ, line=psub.lineno,
+               witness='select * from int1.t1 a join (select id, y as x from int2.t2) s on a.id = s.id where s.x = 1')
     # ---- a CTE shadows only an unqualified name ------------------------------------------------------------------------------------------
     QP = 'mindsdb_sql/planner/query_planner.py'
     qp = class_named(ctx.src.tree(QP), 'QueryPlanner')
